@@ -51,6 +51,7 @@ def _len_atoms(getn):
         # abstraction check: n == 2 stands for "two or more"; comparisons against constants <= 2 stay exact except == 2 / != 2
         out.append(('len(_X) %s _K' % sym, mk(fn)))
     out.append(('not _X', lambda e, s, tr: (getn(e, s) == 0) if getn(e, s) is not None else None))
+    out.append(('_X', lambda e, s, tr: (getn(e, s) > 0) if getn(e, s) is not None else None))
     return out
 
 
